@@ -7,7 +7,9 @@
 (*   "fn"      script function boundary: an interrupt leaving it becomes   *)
 (*             an ordinary error carrying the interrupt message            *)
 (*   "try"     try body: catches ordinary errors, lets the interrupt pass  *)
-(*   "nilco"   left operand of ??: clears any failure                      *)
+(*   "nilco"   left operand of ??: clears a failure -- unless the run has  *)
+(*             been cancelled, which it checks itself (so that the         *)
+(*             interruption is reported even when nothing follows the ??)  *)
 (*   "defer"   the core runs in a deferred call of an invocation that ended*)
 (*             by return (the deferred call's error becomes the result)    *)
 (*   "block"   catch / finally / module / loop / branch body: passes        *)
@@ -56,7 +58,9 @@ Unwind == /\ phase = "unwind"
                   CASE w = "fn"    -> err' = "wrapped" /\ level' = level - 1 /\ phase' = "unwind"
                     [] w = "try"   -> IF err = "wrapped" THEN err' = "none" /\ level' = level - 1 /\ phase' = "resume"
                                       ELSE level' = level - 1 /\ UNCHANGED <<err, phase>>
-                    [] w = "nilco" -> err' = "none" /\ level' = level - 1 /\ phase' = "resume"
+                    [] w = "nilco" -> IF cancelled /\ Variant # "NilcoSwallows"                 \* ?? looks at the context before it falls back: a cancelled left operand is not a failure to recover from
+                                      THEN err' = "sentinel" /\ level' = level - 1 /\ phase' = "unwind"
+                                      ELSE err' = "none" /\ level' = level - 1 /\ phase' = "resume"
                     [] w = "defer" -> \* deferred calls are the last thing an invocation does: at the outermost level the run ends here
                                       IF Variant = "DeferDrops" THEN err' = "none" /\ level' = level - 1 /\ phase' = (IF level = 1 THEN "done" ELSE "resume")
                                       ELSE err' = "wrapped" /\ level' = level - 1 /\ phase' = "unwind"
